@@ -8,9 +8,12 @@
 package state
 
 import (
+	"bytes"
+	"fmt"
 	"math/big"
 
 	"github.com/youchainhq/go-youchain/common"
+	"github.com/youchainhq/go-youchain/crypto"
 	"github.com/youchainhq/go-youchain/rlp"
 )
 
@@ -134,4 +137,35 @@ func (st *StateDB) VerifC09StorageCached(addr common.Address) bool {
 		}
 	}
 	return true
+}
+
+// VerifC09DelegationsConsistent reports whether the delegation list of the live account at addr hashes
+// to its DelegationsHash (an empty list goes with an empty hash).
+func (st *StateDB) VerifC09DelegationsConsistent(addr common.Address) (ok bool, detail string) {
+	defer func() {
+		if r := recover(); r != nil {
+			ok, detail = false, fmt.Sprint("reading the list panics: ", r)
+		}
+	}()
+	obj := st.getStateObject(addr)
+	if obj == nil {
+		return true, ""
+	}
+	dl := obj.Delegations()
+	h := obj.DelegationsHash()
+	if dl.Len() == 0 {
+		if len(h) == 0 {
+			return true, ""
+		}
+		return false, fmt.Sprintf("empty list, hash %x", h)
+	}
+	bs, err := rlp.EncodeToBytes(dl)
+	if err != nil {
+		return false, err.Error()
+	}
+	want := crypto.Keccak256Hash(bs).Bytes()
+	if !bytes.Equal(want, h) {
+		return false, fmt.Sprintf("list %x hashes to %x, DelegationsHash is %x", dl, want, h)
+	}
+	return true, ""
 }
